@@ -171,6 +171,14 @@ def run(prog: Program, col: Collector, tier: str, refs: Optional[Refs] = None, c
     col.rule("R16.11", "a candidate without parameters is compared as the container of Any (accepted only by patterns whose parameter is Any)", floor=2)
     _bare_candidate(prog, col, refs, cat)
 
+    # ---------------------------------------------------------------- R16.14 exception handlers of the oracle do not decide
+    col.rule("R16.14", "an exception handler inside the subtype oracle re-raises or asks again - it never answers with a constant", floor=2)
+    _oracle_handlers_do_not_decide(prog, col, refs, cat)
+
+    # ---------------------------------------------------------------- R16.13 every op application is dispatched
+    col.rule("R16.13", "the implementation an op applies to its operands always comes from the dispatcher", floor=1)
+    _op_call_dispatches(prog, col, refs)
+
     # ---------------------------------------------------------------- R16.12 per-class dispatch state
     col.rule("R16.12", "metaclasses give every class its own tables and pass registered patterns down the whole MRO", floor=3)
     _per_class_state(prog, col, refs, cat)
@@ -935,6 +943,64 @@ def _bare_candidate(prog: Program, col: Collector, refs: Refs, cat: Catalogue):
 
 
 # ---------------------------------------------------------------------- R16.12
+def _oracle_handlers_do_not_decide(prog: Program, col: Collector, refs: Refs, cat: Catalogue):
+    """issubclass() raises TypeError when the candidate is a typing object (Tuple[...], FrozenSet[...]) rather than a class; KeyError
+    signals a missing table entry.  Neither means 'not a subtype': the handler has to retry with a class (the origin) / fall back to
+    the plain relation, or re-raise.  A handler that returns False (or True) turns a representation accident into a verdict, and
+    the relation stops agreeing with instance membership (a tuple is a Sequence, Tuple[int] suddenly is not)."""
+    funcs = [f for f, _ in _oracle_functions(prog, refs, cat)]
+    di = prog.funcs.get("funsor.typing::deep_isinstance")
+    if di is not None:
+        funcs.append(di)
+    n = 0
+    for f in funcs:
+        for h in [x for x in ast.walk(f.node) if isinstance(x, ast.ExceptHandler)]:
+            n += 1
+            consts = [r for st in h.body for r in ast.walk(st) if isinstance(r, ast.Return) and isinstance(r.value, ast.Constant) and isinstance(r.value.value, bool)]
+            asks = [r for st in h.body for r in ast.walk(st) if isinstance(r, (ast.Return, ast.Raise))]
+            col.check(not consts and bool(asks), f"{f.fq}::except {norm(h.type) if h.type is not None else ''}",
+                      "the handler re-raises or answers by asking the relation again (origin class / plain issubclass / isinstance)",
+                      f"the handler answers `{norm(consts[0]) if consts else 'nothing'}`: an error that only says the candidate is not a plain class (or has no table entry) becomes a "
+                      "verdict, so e.g. Tuple[int] is no longer below Sequence / Hashable although every tuple is an instance of them", f.loc(h))
+    col.cur.analysed["oracle_exception_handlers"] = n
+
+
+def _op_call_dispatches(prog: Program, col: Collector, refs: Refs):
+    """Op.__call__ picks the implementation with `cls.dispatcher.partial_call(*operands)` and applies it.  Every definition of the
+    applied function that can reach the application must be that dispatch: a shortcut for some operand types (call cls.default for
+    plain ints and floats, say) skips rules registered for those very types, so the rule that runs is not the most specific one."""
+    from ..cfg import CFG
+    from .algebra import _reaching_closure
+    f = require_func(prog, "funsor.ops.op::Op.__call__")
+    cfg = CFG(f.node)
+    vararg = f.node.args.vararg.arg if f.node.args.vararg else None
+    n = 0
+    for c in walk_no_nested(f.node):
+        if not (isinstance(c, ast.Call) and isinstance(c.func, ast.Name) and any(isinstance(a, ast.Starred) and isinstance(a.value, ast.Name) for a in c.args)):
+            continue  # an application to all the operands: f(*args, ...)
+        if c.func.id in ("isinstance", "len", "tuple", "list", "print", "super"):
+            continue
+        st = c
+        while not isinstance(st, ast.stmt):
+            st = f.module.parent.get(st)
+        closure = _reaching_closure(f, c.func, st, cfg)
+        defs = [e for e in closure[1:] if not isinstance(e, ast.Name)]
+        # direct definitions of the called name only (first level): assignments `fn = ...`
+        direct = []
+        for d in walk_no_nested(f.node):
+            if isinstance(d, ast.Assign) and any(isinstance(t, ast.Name) and t.id == c.func.id for t in d.targets):
+                direct.append(d.value)
+        if not direct:
+            continue
+        n += 1
+        bad = [d for d in direct if not (isinstance(d, ast.Call) and isinstance(d.func, ast.Attribute) and d.func.attr in ("partial_call", "dispatch")
+                                         and "dispatcher" in norm(d.func.value))]
+        col.check(not bad, f"{f.fq}::{norm(c)[:50]}", f"`{c.func.id}` is always the result of dispatcher.partial_call on the operands",
+                  f"`{c.func.id}` may be `{norm(bad[0])[:50]}` - not the dispatcher's choice: rules registered for the operand types that take this shortcut never run, so "
+                  "the implementation that runs is not the most specific registered one (and differs from what dispatcher.partial_call reports)" if bad else "", f.loc(c))
+    col.cur.analysed["op_applications"] = n
+
+
 def _memo_invalidated(prog: Program, col: Collector, pc: Func, attrs):
     """The memo of dispatch decisions must be dropped when a pattern is registered: otherwise a decision taken earlier (in particular
     'no rule of this partial interpretation matches - fall through to the enclosing one') outlives the registration of a matching
